@@ -250,6 +250,20 @@ def gen_tables():
     return out
 
 
+def gen_pywt():
+    """the filter banks of every discrete wavelet of the INSTALLED PyWavelets (environment, not /repo), exact dyadics"""
+    import pywt
+    out = HEADER % 'the installed PyWavelets package (pywt.Wavelet(name).filter_bank for every discrete wavelet)'
+    out += '(* (name, orthogonal?, dec_lo, dec_hi, rec_lo, rec_hi), every tap x as (m, e), x = m * 2^e exactly *)\n'
+    rows = []
+    lit = lambda f: '[' + '; '.join('(%s, %s)' % (('(%d)' % m) if m < 0 else str(m), ('(%d)' % e) if e < 0 else str(e)) for m, e in (dyadic(float(v)) for v in f)) + ']'
+    for w in pywt.wavelist(kind='discrete'):
+        W = pywt.Wavelet(w)
+        rows.append('("%s"%%string, %s, %s, %s, %s, %s)' % (w, 'true' if W.orthogonal else 'false', lit(W.dec_lo), lit(W.dec_hi), lit(W.rec_lo), lit(W.rec_hi)))
+    out += 'Definition pywt_banks : list (string * bool * list (Z*Z) * list (Z*Z) * list (Z*Z) * list (Z*Z)) := [\n  ' + ';\n  '.join(rows) + '].\n'
+    return out
+
+
 def write_if_changed(path, text):
     old = open(path).read() if os.path.exists(path) else None
     if old != text:
@@ -262,7 +276,7 @@ def write_if_changed(path, text):
 def regenerate():
     os.makedirs(GEN, exist_ok=True)
     info = {}
-    for name, fn in (('Dims.v', gen_dims), ('Modes.v', gen_modes), ('Tables.v', gen_tables), ('Effects.v', gen_effects)):
+    for name, fn in (('Dims.v', gen_dims), ('Modes.v', gen_modes), ('Tables.v', gen_tables), ('Effects.v', gen_effects), ('PywtTables.v', gen_pywt)):
         text = fn()
         ch = write_if_changed(os.path.join(GEN, name), text)
         info[name] = dict(sha=hashlib.sha256(text.encode()).hexdigest()[:12], rewritten=ch)
